@@ -1,10 +1,12 @@
 import Driver.Util
 import Driver.BipSpec
+import Driver.FrameCodecSpec
 
 /-! `sonicspec`: the property monitors alone (no model, nothing regenerated from the source). -/
 open Driver
 
 def components : List (String × (Script → Result)) :=
-  [("bip", Driver.BipSpec.check)]
+  [("bip", Driver.BipSpec.check),
+   ("codec", Driver.FrameCodecSpec.check)]
 
 def main (args : List String) : IO UInt32 := Driver.mainWith components args
